@@ -38,16 +38,32 @@ def run(chk):
     # V
     recs = core.run_driver('align', tier=chk.tier, seed=chk.seed, args=dict(prop='C16'))
     chk.validate('blind', 'Trace_Align', 'Trace_Align.cfg', recs, driver='align', jobs=14)
-    good = [x for x in recs if x['kind'] == 'consist' and x['exc'] == '' and x['aligner'] == 'greedy'][0]
+    goods = [x for x in recs if x['kind'] == 'consist' and x['exc'] == '' and x['aligner'] == 'greedy']
+    good = goods[0]
 
     def corrupt(x):
         x['mapping'][0][2], x['mapping'][1][2] = x['mapping'][1][2], x['mapping'][0][2]
         return x
-    core.binding_demo(chk, 'bind-consistent', 'Trace_Align', 'Trace_Align.cfg', good, corrupt, 'consistent')
+    core.binding_demo(chk, 'bind-consistent', 'Trace_Align', 'Trace_Align.cfg', good, corrupt, 'consistent', candidates=goods[1:])
+    # hook decision trace of real DHTV calls (float masks, every metric) against the step machine
+    recs = core.run_driver('align', tier=chk.tier, seed=chk.seed, args=dict(prop='C16trace'))
+    chk.validate('dhtv-hook-trace', 'Trace_DHTV', 'Trace_DHTV.cfg', recs, driver='align', jobs=14)
+    # binding demonstration: drop one hook event (a bin decision) -> the machine must reject the schedule
+    from .. import tlc
+    tid = [r['tid'] for r in recs if r['kind'] == 'bin'][0]
+    one = [dict(r) for r in recs if r['tid'] == tid]
+    drop = [i for i, r in enumerate(one) if r['kind'] == 'bin'][0]
+    cut = one[:drop] + one[drop + 1:]
+    for i, r in enumerate(cut):
+        r['id'] = i
+    v, _ = tlc.validate_trace('Trace_DHTV', 'Trace_DHTV.cfg', cut, tag='bindhook')
+    if not any('schedule' in x['failed'] or 'diverged' in x['failed'] or 'terminated' in x['failed'] for x in v):
+        raise core.MachineryError('binding demonstration (dropped hook event) was not rejected')
+    chk.parts.append(dict(part='bind-dropped-hook-event', kind='binding-demo', rejected_with='schedule'))
     chk.assumptions = ['DHTV consistency is claimed under the premise evaluated by TLC per case: >= 70 % majority in '
                        'the first segment and OverlapTwoThirds(plan)',
-                       'exact procedure replays use integer masks (metrics multiply / euclidean); cos is covered by '
-                       'the hook-based decision trace']
+                       'exact procedure replays use integer masks (metrics multiply / euclidean); float masks and cos are covered by '
+                       'the hook decision trace validated against the DHTV step machine (Trace_DHTV.tla)']
 
 
 def replay(path):
